@@ -17,9 +17,8 @@ PUBLISHED:
   int get_v() const { g_trace = 5; return _v; }
   A add(const A &o) const { g_trace = 6; return A(_v + (o._v << 3) - o._v); }
   bool operator == (const A &o) const { g_trace = 7; return _v == o._v; }
-  unsigned short narrow(signed char a, unsigned short b, long long c, unsigned long long d, bool e) const {
-    g_trace = 8; return (unsigned short)(a ^ (b << 1) ^ ((int)c << 2) ^ ((int)(d >> 7) << 3) ^ (e ? 13 : 0) ^ _v);
-  }
+  unsigned short narrow(signed char a, unsigned short b) const { g_trace = 8; return (unsigned short)(a ^ (b << 1) ^ _v); }
+  long long widen(long long c, unsigned long long d, bool e) const { g_trace = 12; return c ^ (long long)(d >> 7) ^ (e ? 13 : 0) ^ _v; }
   double scale(double x, float y) const { g_trace = 9; return (y > 0 ? x : -x) + (_v & 1); }
   A &self() { g_trace = 10; return *this; }
   const A *other(const A *p) const { g_trace = 11; return p; }
